@@ -7,12 +7,46 @@ package c14
 
 import (
 	"errors"
+	"fmt"
 	"io"
 	"net"
 	"os"
 	"sync"
+	"sync/atomic"
 	"time"
 )
+
+// vclock is the virtual clock of one connection (or of one datagram socket). The server end of an
+// in-memory transport keeps its deadlines on this clock, not on the wall clock: a deadline set to
+// "now + d" expires once the harness has advanced the clock by d - the client "pauses" - and never
+// because the machine is slow. A deadline is translated when it is set: t lies d = t - time.Now()
+// ahead of (or behind: Shutdown's aLongTimeAgo) the moment of the call, so it expires at virtual
+// time now() + d. The only wall-clock quantity is the few nanoseconds between the library's own
+// time.Now() and the Set*Deadline call, which make d a little smaller than the configured timeout;
+// generated pauses keep a margin of at least a second from every read deadline (maxPause).
+type vclock struct{ ns atomic.Int64 }
+
+func (c *vclock) now() time.Duration { return time.Duration(c.ns.Load()) }
+
+// vdeadline is a deadline on a vclock.
+type vdeadline struct {
+	set bool
+	at  time.Duration
+}
+
+func (c *vclock) deadline(t time.Time) vdeadline {
+	if t.IsZero() {
+		return vdeadline{}
+	}
+	return vdeadline{true, c.now() + time.Until(t)}
+}
+
+func (c *vclock) expired(d vdeadline) bool { return d.set && c.now() >= d.at }
+
+// deadlineErr is what a net.Conn returns for an expired deadline: a net.Error with Timeout() true.
+func deadlineErr(op string) error {
+	return &net.OpError{Op: op, Net: "mem", Err: os.ErrDeadlineExceeded}
+}
 
 // half is one direction of the stream.
 type half struct {
@@ -28,6 +62,12 @@ type half struct {
 	cut      int // >= 0: only the first cut octets ever written are delivered, then EOF
 	written  int
 	nread    int
+	virt     *vclock   // non-nil: the reading end keeps its read deadline on this clock (vdl), not on the wall clock
+	vdl      vdeadline // read deadline on virt
+	waiting  bool      // a Read is parked with nothing left to deliver
+	vdlDist  time.Duration // how far ahead the read deadline lay when it was set (negative: Shutdown's "a long time ago")
+	vdlSetAt time.Duration // virtual time of that call
+	rExpired []string      // Reads that ended on a read deadline which had been set in the future: the silence of the client outlasted it
 }
 
 func newHalf() *half { h := &half{cut: -1}; h.cond = sync.NewCond(&h.mu); return h }
@@ -38,6 +78,10 @@ type endpoint struct {
 	mu         sync.Mutex
 	closed     bool
 	closes     int
+	virt       *vclock   // non-nil (server end): deadlines live on the connection's virtual clock
+	wdl        vdeadline // write deadline on virt
+	wdlSets    []string  // every SetWriteDeadline call: virtual time of the call and the distance of the deadline
+	wdlExpired []string  // every Write that failed because the write deadline had passed
 }
 
 func memAddr(port int) net.Addr { return &net.TCPAddr{IP: net.IPv4(127, 0, 0, 1), Port: port} }
@@ -60,7 +104,14 @@ func (e *endpoint) Read(p []byte) (int, error) {
 		if h.rclosed {
 			return 0, net.ErrClosed
 		}
-		if !h.deadline.IsZero() && !h.deadline.After(time.Now()) {
+		if h.virt != nil {
+			if h.virt.expired(h.vdl) {
+				if h.vdlDist > 0 {
+					h.rExpired = append(h.rExpired, fmt.Sprintf("read at virtual time %v: the read deadline set at %v (now+%v) had passed", h.virt.now(), h.vdlSetAt, h.vdlDist.Round(time.Millisecond)))
+				}
+				return 0, deadlineErr("read")
+			}
+		} else if !h.deadline.IsZero() && !h.deadline.After(time.Now()) {
 			return 0, os.ErrDeadlineExceeded
 		}
 		if len(p) == 0 {
@@ -89,13 +140,27 @@ func (e *endpoint) Read(p []byte) (int, error) {
 		if h.eof {
 			return 0, io.EOF
 		}
+		h.waiting = true
+		h.cond.Broadcast()
 		h.cond.Wait()
+		h.waiting = false
 	}
 }
 
 func (e *endpoint) Write(p []byte) (int, error) {
 	if e.isClosed() {
 		return 0, net.ErrClosed
+	}
+	if e.virt != nil {
+		e.mu.Lock()
+		late := e.virt.expired(e.wdl)
+		if late {
+			e.wdlExpired = append(e.wdlExpired, fmt.Sprintf("write of %d octets at virtual time %v: the write deadline passed at %v", len(p), e.virt.now(), e.wdl.at))
+		}
+		e.mu.Unlock()
+		if late {
+			return 0, deadlineErr("write")
+		}
 	}
 	h := e.out
 	h.mu.Lock()
@@ -157,13 +222,36 @@ func (e *endpoint) Close() error {
 func (e *endpoint) LocalAddr() net.Addr  { return e.local }
 func (e *endpoint) RemoteAddr() net.Addr { return e.rem }
 func (e *endpoint) SetDeadline(t time.Time) error {
+	e.SetWriteDeadline(t)
 	return e.SetReadDeadline(t)
 }
-func (e *endpoint) SetWriteDeadline(t time.Time) error { return nil }
+
+// SetWriteDeadline: a Write never blocks here, so a write deadline matters only once it has passed -
+// on the server end that is decided on the connection's virtual clock.
+func (e *endpoint) SetWriteDeadline(t time.Time) error {
+	if e.virt == nil {
+		return nil
+	}
+	e.mu.Lock()
+	e.wdl = e.virt.deadline(t)
+	if e.wdl.set {
+		e.wdlSets = append(e.wdlSets, fmt.Sprintf("at virtual time %v: now+%v", e.virt.now(), time.Until(t).Round(time.Millisecond)))
+	} else {
+		e.wdlSets = append(e.wdlSets, fmt.Sprintf("at virtual time %v: none", e.virt.now()))
+	}
+	e.mu.Unlock()
+	return nil
+}
 func (e *endpoint) SetReadDeadline(t time.Time) error {
 	h := e.in
 	h.mu.Lock()
 	defer h.mu.Unlock()
+	if h.virt != nil {
+		h.vdl = h.virt.deadline(t)
+		h.vdlDist, h.vdlSetAt = time.Until(t), h.virt.now()
+		h.cond.Broadcast()
+		return nil
+	}
 	h.deadline = t
 	if h.timer != nil {
 		h.timer.Stop()
@@ -182,6 +270,54 @@ func (e *endpoint) SetReadDeadline(t time.Time) error {
 		}
 	}
 	return nil
+}
+
+// makeVirtual puts the deadlines of this end on a virtual clock of its own (call before any I/O).
+func (e *endpoint) makeVirtual() *vclock {
+	c := &vclock{}
+	e.virt = c
+	e.in.mu.Lock()
+	e.in.virt = c
+	e.in.mu.Unlock()
+	return c
+}
+
+// pause lets d pass on the virtual clock of this end: read and write deadlines that lie less than d
+// ahead are expired afterwards, a Read parked on such a deadline returns a timeout.
+func (e *endpoint) pause(d time.Duration) {
+	e.virt.ns.Add(int64(d))
+	e.in.mu.Lock()
+	e.in.cond.Broadcast()
+	e.in.mu.Unlock()
+}
+
+// waitParked blocks until this end has read everything that was written to it and is parked in a
+// Read (true), or has been closed / d of wall-clock time elapsed (false). The server reads, handles
+// and answers the messages of one connection in one goroutine: once it is parked again with nothing
+// left to read, everything it was going to do for the messages written so far has been done.
+func (e *endpoint) waitParked(d time.Duration) bool {
+	h := e.in
+	t := time.AfterFunc(d, func() { h.mu.Lock(); h.cond.Broadcast(); h.mu.Unlock() })
+	defer t.Stop()
+	end := time.Now().Add(d)
+	h.mu.Lock()
+	defer h.mu.Unlock()
+	for !(h.waiting && len(h.buf) == 0) {
+		if h.rclosed || time.Now().After(end) {
+			return false
+		}
+		h.cond.Wait()
+	}
+	return true
+}
+
+func (e *endpoint) deadlineLog() (sets, expired, readExpired []string) {
+	e.in.mu.Lock()
+	readExpired = append(readExpired, e.in.rExpired...)
+	e.in.mu.Unlock()
+	e.mu.Lock()
+	defer e.mu.Unlock()
+	return append([]string{}, e.wdlSets...), append([]string{}, e.wdlExpired...), readExpired
 }
 
 // consumed reports how many octets this end has read so far.
@@ -206,6 +342,14 @@ func (l *memListener) dial(port int) (cli, srv *endpoint) {
 	l.cond.Broadcast()
 	l.mu.Unlock()
 	return
+}
+
+// enqueue hands a ready-made server end to the next Accept.
+func (l *memListener) enqueue(srv *endpoint) {
+	l.mu.Lock()
+	l.q = append(l.q, srv)
+	l.cond.Broadcast()
+	l.mu.Unlock()
 }
 
 func (l *memListener) Accept() (net.Conn, error) {
